@@ -64,6 +64,29 @@ def rule_list_writes(m):
             elif isinstance(recv, ast.Attribute) and recv.attr == 'cssRules' and n.func.attr not in ('append', 'extend'):
                 # append/extend of a list installed by a setter are rebound to insertRule
                 out.append((n, 'public-mutator', text(n)))
+    # the same through a local alias: `rules = self._cssRules` / `self.cssRules`, then `del rules[i]`,
+    # `rules[i] = x`, `rules.pop()` ...
+    for q, fn in m.functions():
+        alias = {}
+        for st in ast.walk(fn):
+            if isinstance(st, ast.Assign) and isinstance(st.value, ast.Attribute) and st.value.attr in ('_cssRules', 'cssRules') and m.enclosing_def(st) is fn:
+                for t in st.targets:
+                    if isinstance(t, ast.Name):
+                        alias[t.id] = st.value.attr
+        if not alias:
+            continue
+        rebound = {t.id for st in ast.walk(fn) if isinstance(st, ast.Assign) for t in st.targets if isinstance(t, ast.Name) and t.id in alias
+                   and not (isinstance(st.value, ast.Attribute) and st.value.attr in ('_cssRules', 'cssRules'))}
+        for n in ast.walk(fn):
+            if m.enclosing_def(n) is not fn:
+                continue
+            if isinstance(n, (ast.Assign, ast.AugAssign, ast.Delete)):
+                for t in (n.targets if not isinstance(n, ast.AugAssign) else [n.target]):
+                    if isinstance(t, ast.Subscript) and isinstance(t.value, ast.Name) and t.value.id in alias and t.value.id not in rebound:
+                        out.append((n, 'raw-alias', f'{text(n)} (with {t.value.id} = self.{alias[t.value.id]})'))
+            elif isinstance(n, ast.Call) and isinstance(n.func, ast.Attribute) and n.func.attr in MUTATORS and isinstance(n.func.value, ast.Name) and n.func.value.id in alias and n.func.value.id not in rebound:
+                if not (alias[n.func.value.id] == 'cssRules' and n.func.attr in ('append', 'extend')):
+                    out.append((n, 'raw-alias', f'{text(n)} (with {n.func.value.id} = self.{alias[n.func.value.id]})'))
     return out
 
 
@@ -489,6 +512,16 @@ def r09e(chk, rid='R09.e'):
                 okp, _ = g.all_paths_pass([ENTRY], lambda n: n is i, targets=[fin[0].id])
                 ok = ok or okp
         chk.ob(rid, rel, q, 'the kind test dominates the insertion and returns on rejection', ok, 'a denied kind can reach _finishInsertRule')
+        # the object that is tested must be the prepared one: _prepareInsertRule turns rule text into a rule object
+        prep = [n for n in g.nodes if any(call_name(c) == 'self._prepareInsertRule' for c in cfgmod.calls_at(n))]
+        if len(prep) != 1:
+            raise AnalysisError(f'{q}: _prepareInsertRule call not found')
+        okp = bool(ifs)
+        for i in ifs:
+            o, _ = g.all_paths_pass([ENTRY], lambda n: n is prep[0], targets=[i.id])
+            okp = okp and o
+        chk.ob(rid, rel, q, 'the kind test looks at the rule object _prepareInsertRule returns (rule text is parsed there)', okp,
+               'the kind test runs before the argument is prepared: a rule handed over as text is a str at that point and passes every isinstance test, so denied kinds given as text are inserted')
     # parse-time at-keyword deny list in CSSMediaRule._setCssText.atrule
     m = chk.repo.mod(MEDIA)
     f = m.get('CSSMediaRule._setCssText.atrule')
